@@ -177,6 +177,9 @@ func (e *Eval) evalLoopBest(fr *frame, h *ssa.BasicBlock, body map[*ssa.BasicBlo
 	if e.appendBytesLoop(fr, h, body, in, done) {
 		return true
 	}
+	if e.quoteItemsLoop(fr, h, body, in, done) {
+		return true
+	}
 	if !fr.containsInner[h] {
 		snap := e.snapshotLoop(fr, done)
 		clean := e.evalLoop(fr, h, body, in, done)
